@@ -50,16 +50,10 @@ func main() {
 	if pf := os.Getenv("C04_PROF"); pf != "" {
 		f, _ := os.Create(pf)
 		pprof.StartCPUProfile(f)
-		go func() {
-			time.Sleep(40 * time.Second)
-			pprof.StopCPUProfile()
-			f.Close()
-			fmt.Println("profile written")
-		}()
 	}
 	thorough := run.Thorough()
 
-	cfg := tierCfg{fullLen: 300, kFull: 2, fullLen2: 300, radius: 8, maxCand: 300, singlesAll: 8192,
+	cfg := tierCfg{fullLen: 300, kFull: 2, fullLen2: 300, radius: 8, maxCand: 300, singlesAll: 1024,
 		splitAllLen: 160, wsSplitAll: 0, splitRadius: 4, oneByteLimit: 1200, wsSinglesAll: 400, wsPairRadius: 8, wsSplitRadius: 4,
 		bigLen: 20000, httpFull2: 200, httpFull3: 0}
 	seqMax := 2
@@ -84,7 +78,7 @@ func main() {
 		"frames len 0,1,2,65535 on channels 0,1,36,255 with payloads that look like a frame/response/request) plus 6 elements exactly at the limits. Sequences: every single element, every sequence of 2 of the %d sequence-alphabet elements%s. "+
 		"Carriers: direct, direct through the server's protocol sniffing, HTTP tunnel (base64), WebSocket client->server and server->client. "+
 		"Reads: one read; all 1-byte reads; direct: every partition with <= %d cut points for streams <= %d bytes and with <= 2 for streams <= %d bytes; base64 text: every partition with <= 3 cuts up to %d chars (0 = none in this tier), <= 2 cuts up to %d chars; "+
-		"longer streams: every single cut (streams <= %d bytes) and every pair of cuts within %d bytes of a write boundary, header line end or CRLF (only write boundaries when that set exceeds %d positions; streams > %d bytes: pairs within 4 bytes of write boundaries); "+
+		"longer streams: every single cut (streams <= %d bytes; beyond: within the same distance of those boundaries, or +-1 around every CRLF when there are more than 1000 such positions) and every pair of cuts within %d bytes of a write boundary, header line end or CRLF (only write boundaries when that set exceeds %d positions; streams > %d bytes: pairs within 4 bytes of write boundaries); "+
 		"server sniffing: every single cut (streams <= 1000 bytes) and all pairs among the first 8 bytes and the element boundaries; WebSocket: every single cut (streams <= %d bytes) and all pairs within %d bytes of a message frame boundary; thorough adds all triples near write boundaries. "+
 		"Writes: one per element; for the tunnels additionally all elements in one write and every split of the stream into 2 writes (HTTP: every position for raw streams <= %d bytes, WebSocket <= %d bytes, else next to element boundaries/CRLFs) with all <=2 cuts within %d (WebSocket %d) bytes of the block boundary. "+
 		"Limits: each limit at L-1, L, L+1, L+2, 2L+7, 50L, terminated and endless, 4 chunk sizes, followed by 4 MiB. Totality: every truncation and every 1-byte mutation (thorough: every 2-byte mutation for streams <= 200 bytes) from {00,'$',CR,LF,SP,':',FF} of every single-element stream on 3 carriers. "+
@@ -358,6 +352,7 @@ func main() {
 	}
 	run.Set("limits_in_tree", L)
 	run.Sample(map[string]any{"phase": "limits", "example": "OP" + "X...(63 chars) accepted, 65 chars refused after <= 4096 bytes consumed of a 4 MiB stream"})
+	pprof.StopCPUProfile()
 	run.Sample(map[string]any{"phase": "totality", "example": "every prefix and every 1-byte mutation of 'ANNOUNCE rtsp://example.com:8554/s RTSP/1.0 ...' -> elements or error"})
 	run.Finish()
 }
